@@ -1,11 +1,12 @@
 """C01 — J1939-21 transport delivers every accepted message intact, exactly once."""
 import common as C
-import sprop, gen_tp, oracle_tp
+import sprop, gen_tp, oracle_tp, netcorr
 
 FILES = ['theories/Base.v', 'theories/gen/Codec.v', 'theories/gen/Tp21Gen.v', 'theories/gen/CaGen.v', 'theories/CodecGlue.v',
          'theories/Model21.v', 'theories/Replay21.v', 'proofs/CodecProofs.v', 'proofs/Flat.v', 'proofs/Tp21Seg.v',
          'proofs/Tp21Resp.v', 'proofs/Tp21Orig.v', 'proofs/FrameLocal.v', 'proofs/Tp21Bam.v',
-         'theories/SkelDefs.v', 'theories/FlowDefs.v', 'theories/gen/SkelGen.v', 'proofs/FlowProofs.v', 'proofs/OrderProofs.v']
+         'theories/SkelDefs.v', 'theories/FlowDefs.v', 'theories/gen/SkelGen.v', 'proofs/FlowProofs.v', 'proofs/OrderProofs.v',
+         'proofs/Net21.v', 'proofs/Net21Proofs.v']
 
 
 def gen(rng, k):
@@ -32,7 +33,23 @@ def run(out, tier, rng, work):
                 'completed CMDT; every handler log replayed on the Coq model (digest of all outputs and state summaries); '
                 'non-trivial = at least one TP.CM/TP.DT frame on the bus; distinct by scenario hash')
     out.assumptions = ['A1-A6 of DESIGN.md section 3 (exact clock, atomic zero-duration handlers, FIFO bus per receiver)',
-                       'closed-loop/any-schedule theorems (T01.6-T01.10) are not proved: covered by the correspondence runs (testing)']
-    out.extra['partial'] = ['T01.5 (BAM roles), T01.6 closed loop, T01.7-T01.10 network theorems not proved; role theorems T01.1, T01.3, T01.4 proved']
+                       'the closed-loop theorem (T01.8) is for one transfer between two otherwise idle nodes without pacing, under the '
+                       'schedule of Net21.v (frames first, then the job threads); any-schedule and many-transfer network theorems are '
+                       'not proved: covered by frame locality (T01.7) plus the correspondence runs (testing)']
+    out.extra['partial'] = ['closed loop proved for one transfer / one schedule (T01.8); any-schedule network theorems not proved; '
+                            'role theorems T01.1, T01.3, T01.4, T01.5, frame locality T01.7 proved']
     sprop.run_stateful(out, 'C01', tier, rng, work, FILES, gen, lambda sc, res: oracle_tp.check_exactly_once(sc, res),
                        120, 1500, nontrivial, sample=sample)
+    # closed-loop correspondence: the network model of theorem C01_closed_loop_delivers against two real stacks
+    n, mism, errors, bad = netcorr.run(work, rng, 16 if tier == 'quick' else 160, big=(tier != 'quick'), tag='c01net')
+    out.extra['closed_loop_cases'] = n
+    out.traces_validated += n
+    for c, sc, what in bad[:1]:
+        out.violation(what, dict(kind='closed-loop-not-delivered'),
+                      dict(broke='oracle', scenario=sc, violation=dict(kind='closed-loop-not-delivered', what=what), scenario_name='closed-loop',
+                           how='./check replay <this file> re-runs the scenario on /repo and prints the oracle verdict'))
+    for name, o in errors[:3]:
+        out.broken.append('closed-loop correspondence %s did not evaluate: %s' % (name, o[-200:].replace('\n', ' ')))
+    for c, i, m, im in mism[:3]:
+        out.broken.append('closed-loop correspondence: network model and two real stacks differ (case %s) at observation %s: model %s / impl %s'
+                          % (c, i, str(m)[:120], str(im)[:120]))
